@@ -298,7 +298,7 @@ theorem step_inv1 (sp : Spec) (hstart : startTasks sp ≠ []) (w : World) (ev : 
               · rename_i hs
                 have : r.state ≠ .IDLE := by
                   intro hi; rw [hi] at hs; exact absurd hs (by decide)
-                exact stay this _ _
+                exact Inv1.checkAffected sp _ t (stay this _ _)
               · split
                 · rename_i hs
                   have : r.state ≠ .IDLE := by
